@@ -277,7 +277,9 @@ Check C19_hash_reads_merged_inputs : forall release bi bu d st inputs p n,
 Print Assumptions C19_hash_reads_merged_inputs.
 
 (* FunctionDef::call re-reads `inputs` from the CALLER's chain: the body's chain binds `inputs`
-   to whatever the call site sees (unless a parameter is itself called `inputs`). *)
+   to whatever the call site sees (unless a parameter is itself called `inputs`).
+   (F9 repaired: this arm — the accumulator starts with `("inputs", i)` — is taken only when the function
+   did not capture `inputs`; a captured `inputs` is found through the shared scope frame instead.) *)
 Theorem C19_callee_sees_callers_inputs : forall ps args fr i self local parent,
   lookup fr "inputs" = Some i ->
   bind_params ps 0 args (("inputs", i) :: self) = Some local ->
